@@ -84,7 +84,9 @@ Lemma remove_leaf_ok ns a b k : leaf_wf ns a b -> rm_post (Leaf ns a b) k (remov
 Proof.
   intros Hw. pose proof Hw as (Hne & Hs & Ha & Hb).
   assert (Hg : good (Leaf ns a b)) by (apply wf_good; exact Hw).
-  unfold remove_leaf, rm_post. unfold keys. cbn [entries].
+  assert (Erl : remove_leaf ns a b k = remove_leaf_names ns a b k) by (destruct ns; [congruence|reflexivity]).
+  rewrite Erl. clear Erl.
+  unfold remove_leaf_names, rm_post. unfold keys. cbn [entries].
   destruct (kltb k a || kltb b k) eqn:Hout.
   { exists (Leaf ns a b), false, false.
     assert (Hnin : ~ In k (ekeys ns)).
